@@ -369,3 +369,67 @@ pub async fn drain_step(draining: bool, busy: &[usize], queued: usize, msg: &str
     me.stop(None);
     out
 }
+
+/// One `dispatch` / `worker_finished_job` on a FactoryState with the real queuer router (sticky or not): workers 0..2, `busy` have a job (key 5) in
+/// flight, the router's deque and flags as given, `queued` jobs (key 6) wait in the factory queue. op: "dispatch" | "finished:<wid>".
+/// Returns "deque=<..>;flags=<..>;idle=<wids>;queue=<n>"
+pub async fn queuer_step(sticky: bool, busy: &[usize], deque: &[usize], queued: usize, op: &str) -> String {
+    use crate::factory::routing::{QueuerRouting, StickyQueuerRouting};
+    use crate::factory::worker::verif_probe as wp;
+    async fn run<R: Router<u64, u64> + crate::factory::routing::verif_probe::DequeAccess>(mut router: R, busy: &[usize], deque: &[usize], queued: usize, op: &str) -> String {
+        router.set_deque(deque, 3);
+        let mut pool = HashMap::new();
+        let mut worker_by_actor = HashMap::new();
+        for w in 0..3usize {
+            let curr: Vec<u64> = if busy.contains(&w) { vec![5] } else { vec![] };
+            let (rec, _got, _r) = wp::record_logging_at(w, &[], &curr, false).await;
+            worker_by_actor.insert(rec.actor.get_id(), w);
+            pool.insert(w, rec);
+        }
+        let mut queue = DefaultQueue::<u64, u64>::default();
+        for i in 0..queued {
+            queue.push_back(Job { key: 6, msg: 200 + i as u64, options: JobOptions::default(), accepted: None });
+        }
+        let mut state: FactoryState<u64, u64, ProbeWorker, (), R, DefaultQueue<u64, u64>> = FactoryState {
+            factory_name: "verif".to_string(),
+            worker_builder: Box::new(ProbeBuilder),
+            pool_size: 3,
+            pool,
+            worker_by_actor,
+            stats: None,
+            router,
+            queue,
+            discard_handler: None,
+            discard_settings: DiscardSettings::None,
+            drain_state: DrainState::NotDraining,
+            dead_mans_switch: None,
+            dead_mans_check: None,
+            capacity_controller: None,
+            lifecycle_hooks: None,
+        };
+        if op == "dispatch" {
+            let _ = state.dispatch(Job { key: 6, msg: 100, options: JobOptions::default(), accepted: None });
+        } else {
+            let _ = state.worker_finished_job(op.strip_prefix("finished:").unwrap().parse().unwrap(), 5);
+        }
+        let (dq, fl) = state.router.get_deque();
+        let mut idle: Vec<usize> = state.pool.iter().filter(|(_, w)| w.is_available() && !w.is_draining).map(|(k, _)| *k).collect();
+        idle.sort();
+        let out = format!(
+            "deque={};flags={};idle={};queue={}",
+            dq.iter().map(|x| x.to_string()).collect::<Vec<_>>().join("+"),
+            fl.iter().map(|x| (*x as u8).to_string()).collect::<Vec<_>>().join("+"),
+            idle.iter().map(|x| x.to_string()).collect::<Vec<_>>().join("+"),
+            state.queue.len()
+        );
+        for (_, w) in state.pool.drain() {
+            w.actor.stop(None);
+        }
+        out
+    }
+    if sticky {
+        run(StickyQueuerRouting::<u64, u64>::default(), busy, deque, queued, op).await
+    } else {
+        run(QueuerRouting::<u64, u64>::default(), busy, deque, queued, op).await
+    }
+}
